@@ -28,7 +28,8 @@ EXHAUSTIVE = {"quick": False, "thorough": True}
 
 SPEC = {"e": {"cseed": 61, "size": 0}, "one": {"cseed": 62, "size": 1}, "big": {"cseed": 63, "size": 20001},
         "unrelated": {"cseed": 64, "size": 17}}
-SUMS = ["ok", "upper", "mixed", "wrong", "wronglen", "none"]
+SUMS = ["ok", "upper", "mixed", "wrong", "wronglen", "none", "numeric_0x", "numeric_padded", "numeric_underscore",
+        "numeric_plus", "numeric_zero_dropped"]
 SIZES = ["ok", "wrong", "none"]
 PRIORS = ["absent", "unref", "ref"]
 ENTRIES = ["store:path", "store:bytesio", "dii:default", "dii:with_calgo"]
